@@ -1163,3 +1163,7 @@ mod tests {
         );
     }
 }
+
+#[cfg(all(test, feature = "pendulum_project_ntpd_rs_verif"))]
+#[path = "../../../verif/harness/statime_algo/estimator.rs"]
+mod verif_estimator;
